@@ -239,7 +239,8 @@ class ScriptedBroker(AsyncBroker):
             raise _kick_exc(kind[n % len(kind)])
         if self.loopback:
             info = {"tok": message.task_id, "kind": "valid", "loop": True,
-                    "ackable": bool(sc.spec.get("loop_ackable")), "ack_async": False, "ack_lat": 0}
+                    "ackable": bool(sc.spec.get("loop_ackable")), "ack_async": False, "ack_lat": 0,
+                    "ack_raise": bool(sc.spec.get("loop_ack_raise"))}
             self.new_delivery(info)
             info["payload"] = message.message
             self._arrive(info, scripted=False)
@@ -538,6 +539,11 @@ class RecordingBackend(AsyncResultBackend):  # type: ignore[type-arg]
             await self.stock.set_result(task_id, result)  # the bundled in-memory backend sees every write
             sc.stock_last = (task_id, result)  # type: ignore[attr-defined]
         sc.trace.add("set_exit", d)
+        if tok == "prime" and getattr(sc, "late_rm", None) is not None:
+            bk, rm = sc.late_rm  # type: ignore[attr-defined]
+            sc.late_rm = None  # type: ignore[attr-defined]
+            bk.add_middlewares(rm)
+            sc.trace.add("retry_mw_added")
 
     async def set_progress(self, task_id: str, progress: Any) -> None:
         self.sc.trace.add("set_progress", OWNER.get(), task_id=task_id, state=str(progress.state), meta=safe_json(progress.meta))
@@ -1215,7 +1221,12 @@ def run_worker(spec: Dict[str, Any], real: bool = False) -> RunResult:
                     no_result_on_retry=r.get("no_result_on_retry", True),
                 )
             pos = r.get("pos", 0)
-            mws.insert(min(pos, len(mws)), rm)
+            if r.get("late"):
+                # the middleware is added to the broker while the worker is already running: once the result of the
+                # (failing) message "prime" has been written
+                sc.late_rm = (broker, rm)  # type: ignore[attr-defined]
+            else:
+                mws.insert(min(pos, len(mws)), rm)
         if mws:
             reg = spec.get("mw_reg", "add")
             k_ = len(mws) // 2
